@@ -29,7 +29,7 @@ LEVEL_TEXT = (
     "and combine their negations with an AND, so a bound can only be skipped behind an unsigned-only guard; (M4) in the three field "
     "loops of TypedPattern::compile (tuple, struct, enum variant) the sub-pattern gets the slice [w .. w + size_in_bits(field)], w is "
     "advanced by the same size on every path of an iteration, and the sub-pattern's verdict is AND-ed into the loop-carried verdict."
-    " Also decided since the hunter rounds: signed and unsigned ranges are cut into the same (disjoint) pieces (M2 shape clause); a compound constructor takes exactly its arity from the witness stack when a missing case is rebuilt (M7); a signed bound is cast to an unsigned number only behind a `>= 0` test of that bound (M8).")
+    " Also decided since the hunter rounds: signed and unsigned ranges are cut into the same (disjoint) pieces (M2 shape clause); a compound constructor takes exactly its arity from the witness stack when a missing case is rebuilt (M7); a signed bound is cast to an unsigned number only behind a `>= 0` test of that bound (M8). M9 (cross-reference to C17-T15): both bounds of a range pattern are compared with both limits of the matched type, so inverted ranges are not cut down to the width of the type.")
 LEVEL_NOTE = "Trusted: rustc MIR; push_comparator_circuit returns (lt, gt) (read); the exclusive-end conversion in the parser is C07-F6."
 EXPLANATION = "Functions analysed: TypedExpr::compile (Match arm), TypedPattern::compile (range arms), check::split_ctor, split_signed_range, split_unsigned_range."
 NOT_DECIDED = "exactness of usefulness / specialize over all arm lists; witnesses of non-exhaustiveness; binding values"
